@@ -115,8 +115,10 @@ AddAll(b, S) == IF S = {} THEN b
                 ELSE LET n == CHOOSE x \in S : TRUE IN
                      AddAll(AddBad(b, Entry("invariant", <<n, last.op, last.cls, last.out>>, ToString(last))), S \ {n})
 
-\* invariants are judged on the current state (the state after the previous event)
+\* invariants are judged on the current state (the state after the previous event); NewViol is bound
+\* once per event (LET nv == NewViol) because TLC re-evaluates a definition at every use
 NewViol == Violated \ reported
+JudgeInvW(b, nv) == AddAll(b, nv)
 JudgeInv(b) == AddAll(b, NewViol)
 
 Inc(c, k) == [c EXCEPT ![k] = @ + 1]
@@ -157,24 +159,25 @@ Stutter(k) == /\ ModelSame
               /\ cnt' = Inc(cnt, k)
 
 Mismatch(e, sig, detail) ==
+  LET nv == NewViol IN
   /\ ModelSame
-  /\ bad' = AddBad(JudgeInv(bad), Entry("nonconformance", sig, detail))
+  /\ bad' = AddBad(JudgeInvW(bad, nv), Entry("nonconformance", sig, detail))
   /\ skip' = TRUE
-  /\ reported' = reported \cup NewViol
+  /\ reported' = reported \cup nv
   /\ UNCHANGED <<scn, cov>>
   /\ cnt' = [cnt EXCEPT !.invEvals = @ + Len(InvTable)]
 
 Accept(k) ==
-  /\ bad' = JudgeInv(bad)
-  /\ reported' = reported \cup NewViol
+  LET nv == NewViol IN
+  /\ bad' = JudgeInvW(bad, nv)
+  /\ reported' = reported \cup nv
   /\ UNCHANGED <<skip, scn>>
   /\ cnt' = [Inc(cnt, k) EXCEPT !.invEvals = @ + Len(InvTable)]
 
 DoCall(e) ==
   IF ENABLED MatchCall(e)
   THEN /\ MatchCall(e)
-       /\ bad' = JudgeInv(bad)
-       /\ reported' = reported \cup NewViol
+       /\ LET nv == NewViol IN bad' = JudgeInvW(bad, nv) /\ reported' = reported \cup nv
        /\ UNCHANGED <<skip, scn>>
        /\ cov' = Bump(cov, IF e.op = "expire" THEN "expire" ELSE ac[e.a].pc)
        /\ cnt' = [cnt EXCEPT !.calls = @ + 1, !.invEvals = @ + Len(InvTable),
